@@ -53,6 +53,16 @@ Theorem C16_sync_total : forall l te, is_bytes l ->
 Proof. exact sync_total. Qed.
 Print Assumptions C16_sync_total.
 
+(* F1 (DESIGN section 7), re-established in Coq: the loop as pinned in /repo before the repair
+   (Model/IO.v sync_loop_pinned) falsifies the first clause: on 47 00 00 00 | 47 00 00 10 .. it reports
+   offset 3 although the least plausible position is 4 (the reader itself is left at 4).  The
+   same stream replays on the real code: corpus/C16/f1.txt. *)
+Theorem C16_F1_pinned_refuted :
+  exists l i off r, is_bytes l /\ first_plausible l i /\
+    sync_pinned (start l E.EOF) = Ok (off, r) /\ off <> N.of_nat i /\ rest r = skipn i l.
+Proof. exact f1_pinned_refuted. Qed.
+Print Assumptions C16_F1_pinned_refuted.
+
 (* non-vacuity: the F1 probe of DESIGN section 7 — one false sync byte (AFC = 00) before the
    true header; least plausible position 4, not 3 *)
 Example C16_nonvacuous :
